@@ -155,6 +155,11 @@ func (q *Queue[T]) BlockingAdd(ctx context.Context, item T) error {
 	defer cancel()
 
 	for q.tracker.cap() <= q.tracker.len() {
+		// Close broadcasts to wake blocked producers: a full queue
+		// that has been closed will never accept the item.
+		if q.closed {
+			return ErrQueueClosed
+		}
 		select {
 		case <-ctx.Done():
 			return ctx.Err()
